@@ -1,6 +1,7 @@
 import GenjaxModel.Proofs.GfiRegen
 import GenjaxModel.Proofs.GfiAssess
 import GenjaxModel.Proofs.GfiAssessCond
+import GenjaxModel.Proofs.GfiGather
 /-!
 # C05 — traces stay coherent under any history of edits; update weights telescope
 -/
@@ -66,5 +67,131 @@ example : ∃ t t' a' x, condExG.simulate condExP [.num 1, .num 7] = some t ∧
        .regenerate (.str "y") [.num 0, .num 7]] = some (t', a') ∧
     t'.choices = some x :=
   ⟨_, _, _, _, rfl, rfl, rfl⟩
+
+/-! ## BEGIN c05gather — particle gathering (SMC `resample`) and lane-wise accept/reject
+
+SMC keeps its N particles as ONE trace of `Vmap g axes N` (`Tr.vec lanes`).
+`resample_vectorized_trace` indexes EVERY leaf of that trace pytree with the ancestor vector `idx`
+— choices, scores, return values and the per-particle (mapped) arguments recorded with the trace
+(`gatherArgs`); broadcast (unmapped) arguments have no particle axis and are unchanged.
+Helper lemmas: `Proofs/GfiGather.lean`. -/
+
+/-- **gathering keeps a particle collection coherent.**  If `Tr.vec lanes` is a coherent trace of
+    `Vmap g axes n` on `args` and every ancestor index designates a lane (`i < n`), then the gathered
+    lanes are a coherent trace of `Vmap g axes idx.length` on the GATHERED arguments; lane `j` of the
+    result is lane `idx[j]` of the input and is a coherent callee trace on lane `idx[j]`'s arguments
+    (which are lane `j` of the gathered arguments); the score of the result is `Σ_j score(lane idx[j])`
+    and its return values are the gathered return values. -/
+theorem C05_vmap_gather_coherent (g : GF) (axes : List Bool) (n : Nat) (args : List Val)
+    (lanes : TrL R) (idx : List Nat) (h : (GF.vmap g axes n).Coh P args (.vec lanes))
+    (hidx : ∀ i ∈ idx, i < n) :
+    (GF.vmap g axes idx.length).Coh P (gatherArgs axes idx args) (.vec (lanes.gather idx)) ∧
+    (∀ j i, idx[j]? = some i →
+      laneArgs axes (gatherArgs axes idx args) j = laneArgs axes args i ∧
+      ∃ t, lanes.toList[i]? = some t ∧ (lanes.gather idx).toList[j]? = some t ∧
+        g.Coh P (laneArgs axes args i) t) ∧
+    (Tr.vec (lanes.gather idx)).score =
+      sumR (idx.map fun i => (lanes.toList.getD i default).score) ∧
+    (Tr.vec (lanes.gather idx)).retval = (Tr.vec lanes).retval.gather idx := by
+  refine ⟨vmap_gather_coherent P g axes n args lanes idx h hidx,
+    fun j i hj => ⟨laneArgs_gatherArgs idx j i hj axes args,
+      vmap_gather_lane P g axes n args lanes idx h hidx j i hj⟩,
+    vmap_gather_score lanes idx, vmap_gather_retval lanes idx ?_⟩
+  simp only [GF.Coh] at h
+  rw [h.1]; exact hidx
+
+/-- **the arguments must be gathered too** (proved counterexample; this is the seeded regression
+    `/verif/seeded/C12_3`): a coherent 3-particle collection with a mapped and a broadcast argument,
+    in-range ancestors `idx = [2,0,0]`; the gathered lanes are coherent for the gathered arguments
+    but NOT for the original ones. -/
+theorem C05_vmap_gather_args_needed :
+    ∃ (P : Prims ℤ) (g : GF) (axes : List Bool) (n : Nat) (args : List Val) (lanes : TrL ℤ)
+      (idx : List Nat),
+      (GF.vmap g axes n).Coh P args (.vec lanes) ∧ (∀ i ∈ idx, i < n) ∧ idx.length = n ∧
+      (GF.vmap g axes idx.length).Coh P (gatherArgs axes idx args) (.vec (lanes.gather idx)) ∧
+      ¬ (GF.vmap g axes idx.length).Coh P args (.vec (lanes.gather idx)) :=
+  vmap_gather_args_needed
+
+/-- **lane-wise accept/reject** (`tree_map (where accept new old)` of a kernel vmapped over the
+    particles / chains): the lane-wise selection of two Vmap traces coherent for the same arguments
+    is coherent for them (one mask entry per lane); its score is the lane-wise selected sum of lane
+    scores and its return value the lane-wise selected return values.
+    Lane-wise version of `C05_select_coherent`. -/
+theorem C05_select_lanes_coherent (g : GF) (axes : List Bool) (n : Nat) (args : List Val)
+    (new old : TrL R) (mask : List Bool) (hm : mask.length = n)
+    (h1 : (GF.vmap g axes n).Coh P args (.vec new)) (h2 : (GF.vmap g axes n).Coh P args (.vec old)) :
+    (GF.vmap g axes n).Coh P args (.vec (TrL.select mask new old)) ∧
+    (Tr.vec (TrL.select mask new old)).score =
+      sumR (selectL mask (new.toList.map Tr.score) (old.toList.map Tr.score)) ∧
+    (Tr.vec (TrL.select mask new old)).retval =
+      Val.ofList (selectL mask (new.toList.map Tr.retval) (old.toList.map Tr.retval)) :=
+  ⟨select_lanes_coherent P g axes n args new old mask hm h1 h2,
+   select_lanes_score new old mask, select_lanes_retval new old mask⟩
+
+/-- **histories of a particle collection.**  A trace of a top-level `Vmap g axes n` stays coherent
+    — for the lane count and the arguments recorded by the last move — under any finite history of
+    update / regenerate (`Op'.base`), resample-gather (`Op'.gather idx`), lane-wise selection against
+    an externally supplied trace (`Op'.laneSelect`) and vmapped accept/reject kernels
+    (`Op'.kernel mask op`: propose with `op`, keep lane `j` of the proposal iff `mask[j]`).
+    `OpsOk` states the side conditions: ancestor indices in range, masks of the right length,
+    supplied traces coherent for the arguments recorded at that moment, kernels proposing under the
+    recorded arguments.  Extends `C05_history_coherent` (which it contains: `applyOps'_base`). -/
+theorem C05_history_with_gather_coherent (g : GF) (axes : List Bool) (n : Nat) (t : Tr R)
+    (a : List Val) (ht : (GF.vmap g axes n).Coh P a t) (ops : List (Op' R))
+    (hok : OpsOk P g axes n a ops) (n' : Nat) (t' : Tr R) (a' : List Val)
+    (h : applyOps' P cfg g axes n t a ops = some (n', t', a')) :
+    (GF.vmap g axes n').Coh P a' t' :=
+  history_with_gather_coherent P cfg g axes n t a ht ops hok n' t' a' h
+
+/-- non-vacuity of `C05_vmap_gather_coherent`: the 3-particle collection simulated from
+    `x ~ d1(a, b); return x + b` with `a = (10,20,30)` mapped and `b = 5` broadcast is coherent, and
+    `idx = [2,0,0]` is in range -/
+example : (GF.vmap gatherExG [true, false] 3).simulate gatherExP gatherExArgs =
+      some (.vec gatherExLanes) ∧
+    (GF.vmap gatherExG [true, false] 3).Coh gatherExP gatherExArgs (.vec gatherExLanes) ∧
+    ∀ i ∈ [2, 0, 0], i < 3 :=
+  ⟨by decide +kernel, gatherEx_coh, by decide⟩
+
+/-- …and what the gather does on it: arguments `(30,10,10), 5`; lanes 2,0,0; score
+    `-128 - 68 - 68 = -264`; return values `(36,16,16)` -/
+example : gatherArgs [true, false] [2, 0, 0] gatherExArgs =
+      [Val.ofList [.num 30, .num 10, .num 10], .num 5] ∧
+    gatherExLanes.gather [2, 0, 0] =
+      TrL.ofList [gatherExLane 31 (-128) 36, gatherExLane 11 (-68) 16, gatherExLane 11 (-68) 16] ∧
+    (Tr.vec (gatherExLanes.gather [2, 0, 0])).score = -264 ∧
+    (Tr.vec (gatherExLanes.gather [2, 0, 0])).retval = Val.ofList [.num 36, .num 16, .num 16] := by
+  decide +kernel
+
+/-- non-vacuity of `C05_select_lanes_coherent`: the simulated collection and its regeneration at
+    `"x"` under the same arguments are two coherent traces; mask of length 3 -/
+example : ∃ t' w d, (GF.vmap gatherExG [true, false] 3).regenerate gatherExP Cfg.asis
+      (.vec gatherExLanes) (.str "x") gatherExArgs = some (t', w, d) ∧
+    (GF.vmap gatherExG [true, false] 3).Coh gatherExP gatherExArgs t' ∧
+    [true, false, true].length = 3 := by
+  cases h : (GF.vmap gatherExG [true, false] 3).regenerate gatherExP Cfg.asis
+      (.vec gatherExLanes) (.str "x") gatherExArgs with
+  | none => exact absurd h (by decide +kernel)
+  | some r =>
+    obtain ⟨t', w, d⟩ := r
+    exact ⟨t', w, d, rfl, regenerate_coh gatherExP Cfg.asis _ _ _ _ _ _ _ h, rfl⟩
+
+/-- non-vacuity of `C05_history_with_gather_coherent`: resample with `[2,0,0]`, run a vmapped
+    regenerate kernel at `"x"` under the gathered arguments accepting lanes 0 and 2, update back to
+    the original arguments, then select lane 1 from the originally simulated collection -/
+def gatherExHistory : List (Op' ℤ) :=
+  [.gather [2, 0, 0],
+   .kernel [true, false, true]
+     (.regenerate (.str "x") [Val.ofList [.num 30, .num 10, .num 10], .num 5]),
+   .base (.update none gatherExArgs),
+   .laneSelect [false, true, false] (.vec gatherExLanes)]
+
+example : OpsOk gatherExP gatherExG [true, false] 3 gatherExArgs gatherExHistory ∧
+    (applyOps' gatherExP Cfg.asis gatherExG [true, false] 3 (.vec gatherExLanes) gatherExArgs
+      gatherExHistory).isSome = true := by
+  refine ⟨⟨by decide, rfl, ?_, rfl, gatherEx_coh, trivial⟩, by decide +kernel⟩
+  show _ = gatherArgs [true, false] [2, 0, 0] gatherExArgs
+  decide +kernel
+
+/-! ## END c05gather -/
 
 end Genjax
